@@ -9,12 +9,20 @@ Proof. rewrite <- (span_app f s) at 3. now rewrite app_length. Qed.
 Lemma skip_space_length s : length (skip_space s) <= length s.
 Proof. apply drop_while_length. Qed.
 
-Lemma seek_q_length s : length (seek_q s) <= length s.
+Lemma seek_q_at_length s : forall b, length (seek_q_at b s) <= length s.
 Proof.
-  induction s as [|c r IH]; cbn [seek_q]; [simpl; lia|].
-  destruct (is_space c); [simpl; lia|]. destruct (has_prefix Q_EQ (c :: r)); [lia|].
-  destruct (Nat.eqb c COMMA); simpl; lia.
+  induction s as [|c r IH]; intros b; cbn [seek_q_at]; [simpl; lia|].
+  destruct b.
+  - destruct (is_space c); [specialize (IH true); simpl; lia|].
+    destruct (has_prefix Q_EQ (c :: r)); [lia|].
+    destruct (Nat.eqb c COMMA); [lia|].
+    destruct (Nat.eqb c SEMI); [specialize (IH true) | specialize (IH false)]; simpl; lia.
+  - destruct (Nat.eqb c SEMI); [specialize (IH true); simpl; lia|].
+    destruct (Nat.eqb c COMMA); [lia|]. specialize (IH false); simpl; lia.
 Qed.
+
+Lemma seek_q_length s : length (seek_q s) <= length s.
+Proof. apply seek_q_at_length. Qed.
 
 Lemma to_comma_length s : length (to_comma s) <= length s.
 Proof. induction s as [|c r IH]; simpl; [lia|]. destruct (Nat.eqb c COMMA); simpl; lia. Qed.
